@@ -50,7 +50,8 @@ theorem channel_source_flushes_before_blocking (ps : List (Poll α)) :
     | zero => simp at this
     | succ j => exact ⟨j, rfl, this⟩
   · intro s ht hb
-    have hinv := stateAfter_inv ps init (none : Option (Ev α)) inv_init
+    have hinv : Inv s (lastEv none (runFrom init ps)) :=
+      stateAfter_inv ps init (none : Option (Ev α)) inv_init
     obtain ⟨h1, h2, _⟩ := hinv
     by_cases hle : s.retry ≤ Consts.MAX_RETRY
     · left
@@ -59,7 +60,7 @@ theorem channel_source_flushes_before_blocking (ps : List (Poll α)) :
       have hgt : s.retry > Consts.MAX_RETRY := by omega
       have hl := h2 ht hgt
       rw [lastEv_eq] at hl
-      refine ⟨by show s.retry = _; omega, ?_⟩
+      refine ⟨by omega, ?_⟩
       unfold run
       cases hg : (runFrom init ps).getLast? with
       | none => rw [hg] at hl; simp at hl
@@ -99,15 +100,16 @@ theorem far_flushes_everything (m : Mode) (ops : List (Op (Elem α))) (el : Bool
     (he : e = .far ∨ e = .term) :
     (run m [] (ops ++ opsOfElem el e)).1 = [] ∧
     (run m [] (ops ++ opsOfElem el e)).2.flatten = enqueued ops ++ [e] := by
+  have hen : ∀ ops : List (Op (Elem α)), enqueued (ops ++ [Op.enqueue e el]) = enqueued ops ++ [e] := by
+    intro ops
+    induction ops with
+    | nil => rfl
+    | cons op ops ih => rw [List.cons_append, enqueued_cons, ih, enqueued_cons op ops, List.append_assoc]
   have key : ∀ last : Op (Elem α), last = .flush ∨ last = .end_ →
       (run m [] (ops ++ [.enqueue e el, last])).1 = [] ∧
       (run m [] (ops ++ [.enqueue e el, last])).2.flatten = enqueued ops ++ [e] := by
     intro last hl
     have h := batcher_flush_complete m (ops ++ [.enqueue e el]) last hl
-    have hen : enqueued (ops ++ [Op.enqueue e el]) = enqueued ops ++ [e] := by
-      induction ops with
-      | nil => rfl
-      | cons op ops ih => rw [List.cons_append, enqueued_cons, ih, enqueued_cons op ops, List.append_assoc]
     rw [List.append_assoc, hen] at h
     exact h
   rcases he with rfl | rfl
@@ -162,7 +164,7 @@ theorem batch_mode_invisible (cfg : List (Batcher.Mode × (α → List α))) (hn
       have := congrArg List.length (fsOf_init cfg)
       simp [h0, fsOf] at this
       exact hne (List.eq_nil_of_length_eq_zero this.symm))
-    simpa [State.init] using this
+    exact this.trans (by simp [State.init])
   refine ⟨?_, hem⟩
   have hb := hi.bal
   rw [hc.1, fsOf_init, hem] at hb
@@ -183,7 +185,7 @@ theorem batch_mode_invisible_result (fs : List (α → List α)) (hne : fs ≠ [
     intro h0
     have := congrArg List.length h0
     simp [List.length_zip, hl] at this
-    exact hne (List.eq_nil_of_length_eq_zero this)
+    exact hne this
   obtain ⟨z1, n1⟩ := hz modes₁ h₁
   obtain ⟨z2, n2⟩ := hz modes₂ h₂
   have b1 := (batch_mode_invisible (modes₁.zip fs) n1 es₁).1
@@ -235,7 +237,7 @@ example :
     let s := run (State.init cfg)
       [.src 1 [], .src 2 [], .srcIdle, .src 3 [], .recv 0 [], .timeout 1, .src 4 [], .src 5 [true], .src 6 []]
     (s.sink = [] ∧ quiescentB s.stages = false) ∧
-    (quiesceSched s).filterMap timeoutIdx = [1, 2] ∧ (quiesceSched s).length = 8 ∧
+    (quiesceSched s).filterMap timeoutIdx = [1, 2] ∧ (quiesceSched s).length = 12 ∧
     (run s (quiesceSched s)).sink = [2, 102, 3, 103, 4, 104, 5, 105, 6, 106, 7, 107] ∧
     quiescentB (run s (quiesceSched s)).stages = true := by
   decide
@@ -262,21 +264,21 @@ example :
   input routed to replica B keeps arriving at gaps below `max_delay`, an element buffered for replica
   A is withheld — for as long as that input lasts. What does hold is `quiesce_delivers_all` (no
   further input) and `far_flushes_everything` (end of the iteration).
-  Witness on the real engine: harness `latency`, case `starve` (elements 30, 45 arrive after ≈1.4 s
-  with `max_delay` = 20 ms, bound 720 ms). -/
+  Witness on the real engine: harness `latency`, case `witnessF12` (elements 30, 45 arrive only when the
+  trickle stops: ≈1.4 s with `max_delay` = 20 ms / bound 720 ms, ≈2.8 s with 100 ms / bound 2000 ms). -/
 
 /-- `Adaptive n` (`n ≥ 3`), an `End` with two downstream batchers: `x₁` is enqueued for A while A's
     timer has elapsed (flushed at once, `last_send` := now), `x₂` follows immediately (buffered).
     Then ANY number of further elements routed to B — whatever B's own timer says — leaves `x₂` in
     A's buffer and sends nothing more to A: no event bound exists short of a receive timeout, and
     that timeout is not enabled while these elements keep arriving. -/
-theorem starved_batcher_counterexample (n : Nat) (hn : 3 ≤ n) (x₁ x₂ : α) (ys : List (α × Bool)) :
+theorem starved_batcher_untimed_counterexample (n : Nat) (hn : 3 ≤ n) (x₁ x₂ : α) (ys : List (α × Bool)) :
     let e0 : End2 α := ⟨[], [], [], []⟩
     let e1 := (e0.enqueue (.adaptive n) true x₁ true).enqueue (.adaptive n) true x₂ false
     (e1.feedB (.adaptive n) ys).bufA = [x₂] ∧ (e1.feedB (.adaptive n) ys).sentA = [[x₁]] := by
   intro e0 e1
   have h1 : e1.bufA = [x₂] ∧ e1.sentA = [[x₁]] := by
-    have h2 : ¬ (2 ≥ n) := by omega
+    have h2 : ¬ (n ≤ 1) := by omega
     simp [e1, e0, End2.enqueue, Batcher.enqueue, Batcher.flush, h2]
   have : ∀ (ys : List (α × Bool)) (e : End2 α), (e.feedB (.adaptive n) ys).bufA = e.bufA ∧
       (e.feedB (.adaptive n) ys).sentA = e.sentA := by
@@ -291,5 +293,82 @@ theorem starved_batcher_counterexample (n : Nat) (hn : 3 ≤ n) (x₁ x₂ : α)
       exact ⟨g1.trans (by simp [End2.enqueue]), g2.trans (by simp [End2.enqueue])⟩
   obtain ⟨g1, g2⟩ := this ys e1
   exact ⟨g1.trans h1.1, g2.trans h1.2⟩
+
+/-- **F12 with time.** The same `End` behind a `Start` whose receive timeout is `delta` ticks
+    (`TBlock`): after `x₁` (sent at once) and `x₂` (buffered for A), elements for B arrive every
+    `gap < delta` ticks. For EVERY length of that trickle — i.e. after `ys.length * gap` ticks of real
+    time, unboundedly many maximum delays — `x₂` is still in A's batcher, nothing more was sent to A,
+    and the block never timed out (every arrival re-arms the full delay). This is the negation of the
+    full-strength bounded-delay statement
+        "∀ input timing, every element handed to the source is sent on by every block within
+         `k · max_delay` of its arrival there (k fixed)"
+    on the model of the unchanged code. -/
+theorem starved_batcher_counterexample (n : Nat) (hn : 3 ≤ n) (delta gap : Nat) (hgap : gap < delta)
+    (x₁ x₂ : α) (ys : List (α × Bool)) :
+    let e1 := ((⟨[], [], [], []⟩ : End2 α).enqueue (.adaptive n) true x₁ true).enqueue (.adaptive n) true x₂ false
+    let b := TBlock.trickle (.adaptive n) delta gap ⟨e1, 0, false⟩ ys
+    b.e.bufA = [x₂] ∧ b.e.sentA = [[x₁]] ∧ b.idle = false := by
+  intro e1 b
+  have h1 : e1.bufA = [x₂] ∧ e1.sentA = [[x₁]] := by
+    have h2 : ¬ (n ≤ 1) := by omega
+    simp [e1, End2.enqueue, Batcher.enqueue, Batcher.flush, h2]
+  have hticks : ∀ (k : Nat) (b : TBlock α), b.idle = false → b.since + k < delta →
+      TBlock.ticks delta k b = { b with since := b.since + k } := by
+    intro k
+    induction k with
+    | zero => intro b _ _; rfl
+    | succ k ih =>
+      intro b hi hlt
+      have hno : ¬ (b.since + 1 ≥ delta) := by omega
+      have ht : b.tick delta = { b with since := b.since + 1 } := by simp [TBlock.tick, hi, hno]
+      rw [TBlock.ticks, ht, ih _ (by simpa using hi) (by simp; omega)]
+      simp [Nat.add_assoc, Nat.add_comm 1 k]
+  have key : ∀ (ys : List (α × Bool)) (b : TBlock α), b.idle = false → b.since = 0 →
+      (TBlock.trickle (.adaptive n) delta gap b ys).e.bufA = b.e.bufA ∧
+      (TBlock.trickle (.adaptive n) delta gap b ys).e.sentA = b.e.sentA ∧
+      (TBlock.trickle (.adaptive n) delta gap b ys).idle = false := by
+    intro ys
+    induction ys with
+    | nil => intro b hi _; exact ⟨rfl, rfl, hi⟩
+    | cons y ys ih =>
+      intro b hi hs
+      obtain ⟨y, el⟩ := y
+      rw [TBlock.trickle, hticks gap b hi (by omega)]
+      obtain ⟨g1, g2, g3⟩ := ih (TBlock.recvB (.adaptive n) { b with since := b.since + gap } y el) rfl rfl
+      exact ⟨g1.trans (by simp [TBlock.recvB, End2.enqueue]), g2.trans (by simp [TBlock.recvB, End2.enqueue]), g3⟩
+  obtain ⟨g1, g2, g3⟩ := key ys ⟨e1, 0, false⟩ rfl rfl
+  exact ⟨g1.trans h1.1, g2.trans h1.2, g3⟩
+
+/-- Non-vacuity of the timed witness (`delta` = 20 ticks, one element for B every 19 ticks, 50 of
+    them = 950 ticks): `x₂` = 30 is still buffered; one silent `delta` later the timeout flushes it. -/
+example :
+    let e1 := ((⟨[], [], [], []⟩ : End2 Nat).enqueue (.adaptive 1000) true 15 true).enqueue (.adaptive 1000) true 30 false
+    let b := TBlock.trickle (.adaptive 1000) 20 19 ⟨e1, 0, false⟩ ((List.range 50).map fun k => (18 + 15 * k, false))
+    b.e.bufA = [30] ∧ b.e.sentA = [[15]] ∧
+    (TBlock.ticks 20 20 b).e.bufA = [] ∧ (TBlock.ticks 20 20 b).e.sentA = [[15], [30]] := by
+  decide
+
+/-- **Bounded delay, the part that holds (`_partial`).** Full-strength statement (refuted by
+    `starved_batcher_counterexample`, finding F12): "for ALL timings of the input, an element handed
+    to the source reaches the sink within `k·(d+1)` maximum delays". Proved: the case the property
+    text singles out — no further input arrives — from any reachable state, with one receive timeout
+    per non-source block (`quiesce_delivers_all`); what is missing is exactly the case of a block
+    with several destinations that keeps receiving input for the other destinations. -/
+theorem bounded_delay_partial (cfg : List (Batcher.Mode × (α → List α)))
+    (hadp : ∀ c ∈ cfg.tail, isAdaptive c.1 = true) (es : List (Ev α)) :
+    let s := run (State.init cfg) es
+    let q := run s (quiesceSched s)
+    Quiescent q.stages ∧ q.sink = downF (cfg.map (·.2)) s.emitted ∧
+    ((quiesceSched s).filter Ev.isTimeout).length = cfg.length - 1 := by
+  intro s q
+  obtain ⟨g1, g2, _, g4, _⟩ := quiesce_delivers_all cfg hadp es
+  refine ⟨g1, g2, ?_⟩
+  have : ∀ l : List (Ev α), (l.filter Ev.isTimeout).length = (l.filterMap timeoutIdx).length := by
+    intro l
+    induction l with
+    | nil => rfl
+    | cons e l ih =>
+      cases e <;> simp only [List.filter_cons, List.filterMap_cons, Ev.isTimeout, timeoutIdx] <;> simp [ih]
+  rw [this, g4]; simp
 
 end Noir.Latency
